@@ -290,7 +290,13 @@ impl Send {
 
         // If closed AND the send queue is flushed, then the stream cannot be
         // reset explicitly, either. Implicit resets can still be queued.
-        if is_closed && is_empty {
+        //
+        // The queue can be empty while data is still unsent: a large DATA
+        // frame is handed to the codec as a whole, one chunk is written and
+        // the remainder comes back to the queue afterwards. Such a stream is
+        // not flushed (see `Stream::is_closed`); the reset has to go out and
+        // the remainder has to be dropped.
+        if is_closed && is_empty && stream.buffered_send_data == 0 {
             tracing::trace!(
                 " -> not sending explicit RST_STREAM ({:?} was closed \
                  and send queue was flushed)",
